@@ -533,7 +533,7 @@ func c05Flat(n *c05Node) string {
 }
 
 func runC05(r *core.Run) {
-	r.SetRule("every operator sequence x0 op1 x1 .. opk xk (k<=3, 19 binary operators) typed by inference on go/parser's tree, each evaluated on 8 operand vectors; plus unary prefixes on every operand (k<=2), every full parenthesisation (k<=3) and sampled k=4 sequences. non-trivial = parsed by both sides and evaluated without error on at least one vector; distinct by expression text")
+	r.SetRule("every operator sequence x0 op1 x1 .. opk xk (k<=3, 19 binary operators) typed by inference on go/parser's tree, each evaluated on 8 operand vectors; plus unary prefixes on every operand (k<=2) and on every parenthesised group incl. the whole expression, every full parenthesisation (k<=3), expressions continued on the next line after a binary operator, literal operands, sampled k=4 sequences; each also as the body of a function over parameters. non-trivial = parsed by both sides and evaluated without error on at least one vector; distinct by expression text")
 	r.Assume("go/parser implements the Go specification's precedence table; native int32/bool operators are Go's semantics")
 	type job struct {
 		kind, expr string
@@ -645,6 +645,51 @@ func runC05(r *core.Run) {
 					if ok && consts < nl && !c05ConstShiftLeft(u) {
 						jobs = append(jobs, job{kind: "literal-operands", expr: c05Flat(u)})
 					}
+				}
+			}
+			// unary operators applied to parenthesised groups (the root included), and expressions continued on
+			// the next line after a binary operator
+			if len(opsSeq) <= 2 || (len(opsSeq) == 3 && int(core.HashString(c05Flat(v)))%4 == 0) {
+				for _, t := range append([]*c05Node{v}, alts...) {
+					var inner []*c05Node
+					var walk func(n *c05Node)
+					walk = func(n *c05Node) {
+						if n == nil || n.op == "" {
+							return
+						}
+						inner = append(inner, n)
+						walk(n.l)
+						walk(n.r)
+					}
+					walk(t)
+					for gi := range inner {
+						u := c05Clone(t)
+						var ui []*c05Node
+						var walk2 func(n *c05Node)
+						walk2 = func(n *c05Node) {
+							if n == nil || n.op == "" {
+								return
+							}
+							ui = append(ui, n)
+							walk2(n.l)
+							walk2(n.r)
+						}
+						walk2(u)
+						if c05RootWant(ui[gi]) == 'b' {
+							ui[gi].un = "!"
+						} else if gi%2 == 0 {
+							ui[gi].un = "-"
+						} else {
+							ui[gi].un = "^"
+						}
+						jobs = append(jobs, job{kind: "unary-on-group", expr: u.text(true)})
+					}
+				}
+				flat := c05Flat(v)
+				if parts := strings.Split(flat, " "); len(parts) >= 3 {
+					// operators sit at the odd positions of the flat rendering
+					k := 1 + 2*(int(core.HashString(flat)>>4)%(len(parts)/2))
+					jobs = append(jobs, job{kind: "continued-on-next-line", expr: strings.Join(parts[:k+1], " ") + "\n\t" + strings.Join(parts[k+1:], " ")})
 				}
 			}
 			if withUnary {
